@@ -68,6 +68,19 @@ fn check_all(rep: &mut Report, w: &W, cfgname: &str, phase: &str, full_sub: bool
         }
         rep.model_case(vec![line], vec![r2s(&got)], "charpos");
     }
+    // a range that ends before it begins holds nothing: no text selections, no positions, no segments — whatever the
+    // index holds (milestones, selections of annotations)
+    for (b, e) in [(1usize, 0usize), (n, 0), (n + 1, n), (n + 3, 1), (2, 1)] {
+        let got = guarded(std::panic::AssertUnwindSafe(|| {
+            let mut counts = vec![res.range(b, e).count(), res.range(b, e).rev().count(), resitem.textselections_in_range(b, e).count()];
+            for m in [PositionMode::Begin, PositionMode::End, PositionMode::Both] { counts.push(res.positions_in_range(m, b, e).count()); }
+            counts
+        }));
+        rep.count("inverted-range");
+        if got != Ok(vec![0; 6]) {
+            rep.fail(if got.is_err() { "panic" } else { "oracle" }, "inverted-range", vec![ctx.clone(), format!("range({}, {}), its reverse, textselections_in_range, positions_in_range in the three modes", b, e)], "nothing in any of them", &format!("{:?}", got));
+        }
+    }
     // sub-selections
     for b in 0..=n {
         for e in b..=n {
